@@ -407,6 +407,49 @@ def part_change(args):
     return 1, res, {}
 
 
+def part_neighbours(args):
+    """a Subscribe entry that shares its SD message with entries of other kinds (SubscribeAck / Nack for a subscription
+    this endpoint does not hold, FindService, Offer, StopOffer) in front of it, behind it, on both sides"""
+    name, s, s2, reject, collect = args
+    res = []
+    n = 0
+    others = {"ack": ("suback", 0x7171, 1, 1, 3, 5, (), ()), "nack": ("suback", s, 1, 1, 0, (1 << 16) | 5, (), ()),
+              "find": ("find", 0x7172, 0xFFFF, 0xFF, 3, 0xFFFFFFFF, (), ()),
+              "offer": ("offer", 0x7173, 1, 1, 3, 0, (refcodec.v4("192.0.2.93", 4200),), ()),
+              "stopoffer": ("offer", 0x7173, 1, 1, 0, 0, (refcodec.v4("192.0.2.93", 4200),), ())}
+    for kind, layout, eg in itertools.product(sorted(others), ("front", "behind", "both"), (5, 6, 7)):
+        sub = entry_tuple((s, 1, 1, eg, 0, 3, 1, 0))
+        o = others[kind]
+        ents = {"front": [o, sub], "behind": [sub, o], "both": [o, sub, o]}[layout]
+        loop, seam, prot, log, listeners, specs, egs = build_world(name, s, s2, reject, collect)
+        try:
+            t0 = loop.time()
+            exc = None
+            try:
+                prot.datagram_received(refcodec.sd_message(1, ents), CL, False)
+            except Exception as ex:  # noqa: BLE001
+                exc = type(ex).__name__
+            loop.run_until(t0 + 2 * C)
+            acks = []
+            for t, it, d, addr in prot.transport.sent:
+                for m in refcodec.dec_sd_datagram(d):
+                    acks += [(x[5] & 0xFFFF, (x[5] >> 16) & 0xF, x[4], addr) for x in m["entries"] if x[0] == "suback"]
+            n += 1
+            known, ok = accepts(name, specs, egs, reject, (s, 1, 1, eg))
+            want = [(eg, 0, 3 if ok else 0, CL)]
+            case = dict(server=name, reject=reject, neighbour=kind, layout=layout, eg=eg, collect=collect, sids=(s, s2))
+            if exc:
+                res.append(("no-exception", exc, f"message with a {kind} entry next to a Subscribe: {exc} escaped", case))
+            elif acks != want:
+                res.append(("answer", "missing-with-neighbour-entry" if not acks else "wrong-with-neighbour-entry",
+                            f"Subscribe for eventgroup {eg} with a {kind} entry {layout} in the same message: SubscribeAcks {acks}, "
+                            f"expected {want}", case))
+        finally:
+            seam.__exit__(None, None, None)
+            loop.dispose()
+    return n, res, {}
+
+
 def part_many(args):
     """one SD message with many Subscribe entries (as many as a datagram of 1400 / 4000 / 65000 bytes holds, and the
     counts around them): every one of them gets its own answer"""
@@ -456,6 +499,7 @@ def check(ctx):
     out2 += core.pmap(part_change, [(s, s2, sc, gap) for sc in ("reject-then-accept", "accept-then-reject", "start-between", "reboot-evidence-subscribe",
                                                "reboot-evidence-empty", "reboot-evidence-multicast-empty")
                                     for gap in (0, C / 4, C / 2, C - 2.0 ** -10)], 4)
+    out2 += core.pmap(part_neighbours, pj, 1)
     out2 += core.pmap(part_many, [(name, s, s2, col, count) for name in ("running", "stopped") for col in (0, C)
                                   for count in (16, 17, 64, 65, 85, 86, 87, 128, 250, 255, 256, 1000, 4000)], 4)
     viols = []
@@ -492,6 +536,12 @@ def check(ctx):
 def replay(ctx, body):
     c = body["case"]
     s, s2 = c["sids"]
+    if "neighbour" in c:
+        _, res, _ = part_neighbours((c["server"], s, s2, c["reject"], c["collect"]))
+        res = [o for o in res if o[3]["neighbour"] == c["neighbour"] and o[3]["layout"] == c["layout"] and o[3]["eg"] == c["eg"]]
+        for o in res:
+            print("FAILS:", o[:3])
+        return 1 if res else 0
     if "many" in c:
         _, res, _ = part_many((c["server"], s, s2, c["collect"], c["many"]))
         for o in res:
